@@ -75,7 +75,7 @@ def run(F, rep):
     c12.run(F, sub)
     n = 0
     for o in sub.obligations:
-        if o["rule"] in ("C12-TP1", "C12-TP2", "C12-TP3", "C12-TP4", "C12-MK"):
+        if o["rule"] in ("C12-TP1", "C12-TP2", "C12-TP3", "C12-TP4", "C12-MK", "C12-ZBUF", "C12-IO"):
             n += 1
             rep.ob("C16-PACK", o["instance"], o["ok"], detail=o["detail"], site=o["site"], how=o["how"], key=o["key"].replace(o["rule"], "C16-PACK/" + o["rule"][4:]))
     rep.floor("C16-PACK", n, 10, "tuple-packing clauses shared with C12")
